@@ -166,6 +166,13 @@ type evidence struct {
 	Violations  int            `json:"violations"`
 }
 
+// ViolationCount is the number of violations recorded so far.
+func (r *Run) ViolationCount() int {
+	r.mu.Lock()
+	defer r.mu.Unlock()
+	return len(r.violations)
+}
+
 // Finish writes the evidence file, prints verdict lines and returns the
 // process exit status.
 func (r *Run) Finish() int {
